@@ -1,7 +1,7 @@
 From SL Require Import Tac.
 From SL Require Import PyInt KeyPattern proofs.PyIntProofs.
 Import ListNotations.
-Open Scope Z_scope.
+Local Open Scope Z_scope.
 
 Lemma roundtrip kp items i it :
   nth_error items i = Some it ->
